@@ -96,7 +96,15 @@ pub fn spawn_simple_contact(
         let Some(m) = msg else { return vec![] };
         let KBody::Query(q) = &m.body else { return vec![] };
         *c2.lock().unwrap() += 1;
-        let (nodes, nodes6) = node_lists(&names);
+        // name at most 30 nodes per answer (keeps the reply well within 1500 bytes), rotating
+        // through the list so that every name is mentioned over time
+        let n_q = *c2.lock().unwrap() as usize;
+        let window: Vec<(Id, SocketAddr)> = if names.len() <= 30 {
+            names.clone()
+        } else {
+            (0..30).map(|k| names[(n_q * 30 + k) % names.len()]).collect()
+        };
+        let (nodes, nodes6) = node_lists(&window);
         let r = match q {
             KQuery::Ping { .. } | KQuery::Announce { .. } => KResp { id: id.to_vec(), ..Default::default() },
             KQuery::FindNode { .. } => KResp { id: id.to_vec(), nodes, nodes6, ..Default::default() },
